@@ -354,7 +354,63 @@ func (c *ctx) reuseEvents() {
 				upp, cc := up, cid
 				c.emit(reuseEvent(fmt.Sprintf("al/%s/%v/%d", pn, up, cid), func() interface{} { return pk.newPayload(upp, cc) },
 					func(p interface{}, b []byte) error { return p.(alPayload).UnmarshalBinary(b) },
-					func(p interface{}) interface{} { return emptyAsList(alToVal(p.(alPayload))) }, gen(), gen()))
+					func(p interface{}) interface{} {
+						return M{"val": emptyAsList(alToVal(p.(alPayload))), "mar": marOf(p.(alPayload))}
+					}, gen(), gen()))
+			}
+			// ONE Command value decoded into twice: a command with a payload, then (where the direction has one) a command
+			// without payload - the second result is the second command alone
+			{
+				var withPl, noPl []int
+				for _, cid := range pk.cids[up] {
+					if nilIface(pk.newPayload(up, cid)) {
+						noPl = append(noPl, cid)
+					} else {
+						withPl = append(withPl, cid)
+					}
+				}
+				for _, cid := range []int{0, 1, 2, 3, 4, 5, 6, 7, 8} { // payload-less commands are not all listed in cids
+					if nilIface(pk.newPayload(up, cid)) {
+						noPl = append(noPl, cid)
+					}
+				}
+				one := func(cid int) []byte {
+					p := pk.newPayload(up, cid)
+					if nilIface(p) {
+						return []byte{byte(cid)}
+					}
+					alFromVal(p, c.genALVal(p))
+					b, err := pk.marshal([]alCmd{{cid, p}})
+					if err != nil {
+						return []byte{byte(cid)}
+					}
+					return b
+				}
+				if len(withPl) > 0 {
+					b1 := one(withPl[c.rnd.Intn(len(withPl))])
+					b2 := one(withPl[c.rnd.Intn(len(withPl))])
+					if len(noPl) > 0 && c.rnd.Intn(2) == 0 {
+						b2 = one(noPl[c.rnd.Intn(len(noPl))])
+					}
+					mk := alCommandMakers[pn]
+					c.emit(reuseEvent(fmt.Sprintf("al/%s/%v/Command", pn, up), mk,
+						func(p interface{}, b []byte) error {
+							out := reflect.ValueOf(p).MethodByName("UnmarshalBinary").Call([]reflect.Value{reflect.ValueOf(upp2(up)), reflect.ValueOf(b)})
+							if e, ok := out[0].Interface().(error); ok && e != nil {
+								return e
+							}
+							return nil
+						},
+						func(p interface{}) interface{} {
+							v := reflect.ValueOf(p).Elem()
+							pl := v.FieldByName("Payload")
+							out := M{"cid": int(v.FieldByName("CID").Uint()), "haspl": !pl.IsNil()}
+							if !pl.IsNil() {
+								out["val"] = emptyAsList(alToVal(pl.Interface().(alPayload)))
+							}
+							return out
+						}, b1, b2))
+				}
 			}
 			// Commands
 			genS := func() []byte {
@@ -595,6 +651,8 @@ func (c *ctx) joinAcceptAliasEvents() {
 		c.emit(M{"ev": "methodalias", "up": false, "steps": []interface{}{M{"name": "DecryptJoinAcceptPayload", "err": res, "intact": string(backing) == before}}})
 	}
 }
+
+func upp2(b bool) bool { return b }
 
 // bandIso2: two objects of one band are mutated one after the other; the first must keep its state while the
 // second changes, and the second must end exactly like an object that received the same operations alone.
